@@ -27,6 +27,11 @@ def cases(tier, seed):
         if rng.random() < 0.3:
             ast2 = X.random_ast(rng, 2, SYMS[:4]); yield {'text': text, 'text2': X.render(ast2, rng) if rng.random() < 0.85 else '', 'origin': origin + ' + combinators'}
         else: yield {'text': text, 'origin': origin}
+    # symbols spelled like the variables that to_cfg invents (A0, A1, ...), and S: a symbol and a variable with one value must stay apart (fix a638715)
+    rng2 = random.Random(seed * 7877 + 41)
+    for i in range(300 if tier == 'quick' else 3000):
+        ast = X.random_ast(rng2, rng2.choice([1, 2, 3]), rng2.sample(['A0', 'A1', 'A2', 'S', 'a'], rng2.choice([2, 3, 4])))
+        yield {'text': X.render(ast, rng2, redundant=rng2.choice([0.0, 0.3])), 'origin': 'random rendering, symbols named like to_cfg variables'}
 
 
 def words(ast, n):
